@@ -1,6 +1,6 @@
 """property id -> (simulator module, per-tier configuration)."""
 
-GRAMMAR_DEFAULT = {"max_rules": 5, "min_rules": 2, "modes": ["text", "text", "bytes", "bits"], "max_depth": 2}
+GRAMMAR_DEFAULT = {"max_rules": 5, "min_rules": 2, "modes": ["text", "text", "bytes", "bits"], "max_depth": 2, "computed_reps": True}
 
 CHECKS = {
     "C20": {
@@ -10,8 +10,8 @@ CHECKS = {
     },
     "C19": {
         "sim": "protosim",
-        "quick": {"runs": 20000, "wall_s": 80, "runs_per_spec": 12, "run_wall_cap": 20, "proto": {}, "faults": True},
-        "thorough": {"runs": 1000000, "wall_s": 1500, "runs_per_spec": 20, "run_wall_cap": 30, "proto": {"max_types": 7, "max_states": 4}, "faults": True},
+        "quick": {"runs": 20000, "wall_s": 80, "runs_per_spec": 12, "run_wall_cap": 20, "proto": {}, "faults": True, "walk_rate": 0.5, "walk_len": 12},
+        "thorough": {"runs": 1000000, "wall_s": 1500, "runs_per_spec": 20, "run_wall_cap": 30, "proto": {"max_types": 7, "max_states": 4}, "faults": True, "walk_rate": 0.5, "walk_len": 16},
     },
     "C01": {"sim": "searchsim", "quick": {"runs": 20000, "wall_s": 70, "runs_per_spec": 25, "run_wall_cap": 25, "spec": {}}, "thorough": {"runs": 1000000, "wall_s": 1500, "runs_per_spec": 30, "run_wall_cap": 40, "spec": {"max_h": 7, "max_r": 5, "body_rules": 4}}},
     "C02": {"sim": "searchsim", "quick": {"runs": 20000, "wall_s": 70, "runs_per_spec": 25, "run_wall_cap": 25, "spec": {"raising_rate": 0.5}}, "thorough": {"runs": 1000000, "wall_s": 1500, "runs_per_spec": 30, "run_wall_cap": 40, "spec": {"max_h": 7, "max_r": 5, "body_rules": 4, "raising_rate": 0.5}}},
@@ -29,7 +29,7 @@ CHECKS = {
     },
     "C13": {
         "sim": "fragsim",
-        "quick": {"runs": 60000, "wall_s": 60, "runs_per_spec": 40, "run_wall_cap": 10, "grammar": GRAMMAR_DEFAULT, "ambiguous_regex_rate": 0.1},
+        "quick": {"runs": 60000, "wall_s": 60, "runs_per_spec": 40, "run_wall_cap": 10, "grammar": dict(GRAMMAR_DEFAULT, recursion_rate=0.3), "ambiguous_regex_rate": 0.1},
         "thorough": {"runs": 3000000, "wall_s": 1500, "runs_per_spec": 60, "run_wall_cap": 10, "grammar": dict(GRAMMAR_DEFAULT, max_rules=7), "ambiguous_regex_rate": 0.15},
     },
 }
